@@ -378,31 +378,21 @@ namespace Uft.NonLocal
 
 /-! ### entry hooks -/
 
-/-- what both entry hooks do when no exception is in flight -/
-def pushHook (s : Sh) (loc child : Nat) (plt : Bool) : Sh :=
-  let e := mkEnt loc (s.mem loc) child plt s.recIdx
-  let s2 := autoRestore { s with rs := e :: s.rs, mem := upd s.mem loc (hv plt) }
-  { s2 with recIdx := s2.recIdx + 1 }
-
 theorem mcountEntry_noexc (fx : Fix) {s : Sh} (h : s.inExc = false) (loc child : Nat) :
     mcountEntry fx s loc child = pushHook s loc child false := by
-  simp [mcountEntry, pushHook, h, hv]
+  simp [mcountEntry, h]
 
 theorem mcountEntry_exc (fx : Fix) {s : Sh} (h : s.inExc = true) (loc child : Nat) :
-    mcountEntry fx s loc child =
-      pushHook { rehookException fx s
-        (if s.mem (loc - 1) < loc then (if fx.excFrame then loc else loc - 1) else s.mem (loc - 1)) with
-        inExc := false } loc child false := by
-  simp [mcountEntry, pushHook, h, hv]
+    mcountEntry fx s loc child = pushHook (excPre fx s (entryFrameAddr fx s loc)) loc child false := by
+  simp [mcountEntry, h]
 
 theorem plthookEntry_plain_noexc (fx : Fix) {s : Sh} (h : s.inExc = false) (loc child a : Nat) :
     plthookEntry fx s loc child .plain a = pushHook s loc child true := by
-  simp [plthookEntry, pushHook, h, hv, Sym.flushes]
+  simp [plthookEntry, h, Sym.flushes, pltSpecial]
 
 theorem plthookEntry_plain_exc {s : Sh} (h : s.inExc = true) (loc child a : Nat) :
-    plthookEntry Fix.all s loc child .plain a =
-      pushHook { rehookException Fix.all s loc with inExc := false } loc child true := by
-  simp [plthookEntry, pushHook, h, hv, Sym.flushes, Fix.all]
+    plthookEntry Fix.all s loc child .plain a = pushHook (excPre Fix.all s loc) loc child true := by
+  simp [plthookEntry, h, Sym.flushes, Fix.all, pltSpecial]
 
 section autoRestore
 variable (s : Sh)
@@ -1080,9 +1070,8 @@ theorem inv_call {m : M} (hi : Inv m) {k : Kind} {child slot orig fpw : Nat}
         have hsep := hsm hx rfl
         simp only [hookEntry]
         rw [mcountEntry_exc Fix.all (by exact hx)]
-        have hfa : (if (progWrite m.sh slot orig fpw).mem (slot - 1) < slot then
-              (if Fix.all.excFrame then slot else slot - 1)
-            else (progWrite m.sh slot orig fpw).mem (slot - 1)) = entryFa slot fpw := by
+        have hfa : entryFrameAddr Fix.all (progWrite m.sh slot orig fpw) slot = entryFa slot fpw := by
+          simp only [entryFrameAddr]
           rw [hfp]; simp [entryFa, Fix.all]
         rw [hfa]
         exact fin _ false (key _ hsep)
@@ -1405,7 +1394,7 @@ end progStore
 
 theorem plthookEntry_setjmp {s : Sh} (h : s.inExc = false) (loc child j : Nat) :
     plthookEntry Fix.all s loc child .setjmp j = setupJmpbuf Fix.all (pushHook s loc child true) j := by
-  simp [plthookEntry, pushHook, h, hv, Sym.flushes]
+  simp [plthookEntry, h, Sym.flushes, pltSpecial]
 
 /-- a PLT-hooked callee pushed on an in-step machine (no exception in flight) -/
 theorem inv_push_plt {m : M} (hi : Inv m) {slot orig child : Nat} (hlt : ∀ f ∈ m.fs, slot < f.slot)
@@ -1486,7 +1475,7 @@ theorem plthookEntry_longjmp {s : Sh} (h : s.inExc = false) (loc child j : Nat) 
       { (pushHook s loc child true).record false with
         rs := setTop ((pushHook s loc child true).record false).rs
                 fun e => { e with c := { e.c with ljmp := true }, jb := j } } := by
-  simp [plthookEntry, pushHook, h, hv, Sym.flushes]
+  simp [plthookEntry, h, Sym.flushes, pltSpecial]
 
 def markWritten (l : List Ent) : List Ent := l.map (fun e => { e with written := true })
 
@@ -1604,5 +1593,486 @@ theorem inv_longjmp {m : M} (hi : Inv m) {j child slot orig : Nat} (hw : WellFor
     refine jbOk_of_jbs ?_ (hi.jb j' jb' hj')
     show (exitTop sR).1.jbs = m.sh.jbs
     rw [hs.2.2.2.2.2.1]; simp [sR, sh1, s1]
+
+end Uft.NonLocal
+
+namespace Uft.NonLocal
+
+theorem inv_pthreadExit {m : M} (hi : Inv m) {child slot orig : Nat}
+    (hw : WellFormedOp m (.pthreadExit child slot orig)) :
+    Inv (step Fix.all m (.pthreadExit child slot orig)) := by
+  obtain ⟨_, _, hx⟩ := hw
+  have hpe : plthookEntry Fix.all (progStore m.sh slot orig) slot child .plain 0 =
+      pushHook (progStore m.sh slot orig) slot child true :=
+    plthookEntry_plain_noexc Fix.all (s := progStore m.sh slot orig) hx slot child 0
+  have hstep : step Fix.all m (.pthreadExit child slot orig) =
+      { m with fs := [], sh := pthreadExitW Fix.all (pushHook (progStore m.sh slot orig) slot child true) } := by
+    rw [← hpe]
+    simp only [step, hi.nh, Bool.false_eq_true, ↓reduceIte]
+    rfl
+  rw [hstep]
+  have hrs : (pushHook (progStore m.sh slot orig) slot child true).rs =
+      mkEnt slot ((progStore m.sh slot orig).mem slot) child true (progStore m.sh slot orig).recIdx :: m.sh.rs := by
+    simp
+  have hw : pthreadExitW Fix.all (pushHook (progStore m.sh slot orig) slot child true) =
+      { exitFilterRecord (pushHook (progStore m.sh slot orig) slot child true) false with
+        mem := restoreMem (exitFilterRecord (pushHook (progStore m.sh slot orig) slot child true) false).rs
+                (exitFilterRecord (pushHook (progStore m.sh slot orig) slot child true) false).mem,
+        rs := [] } := by
+    simp only [pthreadExitW, hrs, Fix.all, ↓reduceIte]
+  rw [hw]
+  refine ⟨hi.nh, by simpa using hi.nd, by simpa using hi.vf, ⟨[], rfl, fun _ => rfl⟩, List.Pairwise.nil,
+    (fun f hf => by cases hf), (fun f hf => by cases hf), (fun _ => TopOk_of_nil (fs := []) rfl),
+    (fun _ f hf => by cases hf), ?_⟩
+  intro j jb hj
+  exact jbOk_of_jbs (by simp) (hi.jb j jb hj)
+
+theorem instep_exit {m : M} (child slot orig : Nat) : InStep (step Fix.all m (.exit child slot orig)) := by
+  by_cases h : m.halted = true
+  · left; simp [step, h]
+  · left; simp [step, h]
+
+theorem inv_mtdDtor {m : M} (hi : Inv m) (hw : WellFormedOp m .mtdDtor) : Inv (step Fix.all m .mtdDtor) := by
+  obtain ⟨hx, hch⟩ := hw
+  obtain ⟨dead, hc, hd0⟩ := hi.ctl
+  have hd : dead = [] := hd0 hx
+  subst hd
+  have hexp : expFrames m.fs = [] := by
+    have : ∀ fs : List Frame, (∀ f ∈ fs, f.chain = []) → expFrames fs = [] := by
+      intro fs
+      induction fs with
+      | nil => intro _; rfl
+      | cons f fs ih =>
+        intro h
+        simp [expFrames, h f (by simp), expChain, ih (fun g hg => h g (by simp [hg]))]
+    exact this m.fs hch
+  have hrs : m.sh.rs = [] := by simpa [hexp] using hc
+  have hstep : step Fix.all m .mtdDtor = { m with sh := { m.sh with mem := m.sh.mem, rs := [] } } := by
+    simp [step, hi.nh, mtdDtor, hrs, restoreMem]
+  rw [hstep]
+  exact ⟨hi.nh, hi.nd, hi.vf, ⟨[], by simp [hexp], fun _ => rfl⟩, hi.sorted, hi.origs, hi.memOk, hi.top, hi.exc,
+    fun j jb hj => jbOk_of_jbs rfl (hi.jb j jb hj)⟩
+
+end Uft.NonLocal
+
+namespace Uft.NonLocal
+
+/-! ### the depth bookkeeping (`record_idx`, `rstack->depth`) -/
+
+/-- n-1, …, 1, 0 -/
+def descFrom : Nat → List Nat
+  | 0 => []
+  | n + 1 => n :: descFrom n
+
+@[simp] theorem descFrom_length (n : Nat) : (descFrom n).length = n := by
+  induction n <;> simp_all [descFrom]
+
+theorem descFrom_tail (n : Nat) : (descFrom n).tail = descFrom (n - 1) := by
+  cases n <;> rfl
+
+theorem descFrom_drop (n k : Nat) : (descFrom n).drop k = descFrom (n - k) := by
+  induction k generalizing n with
+  | zero => rfl
+  | succ k ih =>
+    cases n with
+    | zero => simp [descFrom]
+    | succ n => simp only [descFrom, List.drop_succ_cons]; rw [ih]; congr 1; omega
+
+/-- every entry's depth is the number of entries below it, `record_idx` is the number of entries,
+    and so it was when each jmp_buf copy was taken -/
+structure TraceInv (s : Sh) : Prop where
+  idx : s.recIdx = s.rs.length
+  depths : s.rs.map Ent.depth = descFrom s.rs.length
+  jbs : ∀ j srs sidx, s.jbs.lookup j = some (srs, sidx) → sidx = srs.length ∧ srs.map Ent.depth = descFrom srs.length
+
+theorem TraceInv.of_eq {s t : Sh} (h : TraceInv s) (h1 : t.recIdx = s.recIdx)
+    (h2 : t.rs.map Ent.depth = s.rs.map Ent.depth) (h3 : t.jbs = s.jbs) : TraceInv t := by
+  have hl : t.rs.length = s.rs.length := by
+    have := congrArg List.length h2; simpa using this
+  exact ⟨by rw [h1, hl]; exact h.idx, by rw [h2, hl]; exact h.depths, by rw [h3]; exact h.jbs⟩
+
+theorem trace_record {s : Sh} (h : TraceInv s) (b : Bool) : TraceInv (s.record b) :=
+  h.of_eq (by simp) (by simp) (by simp)
+
+theorem trace_pushHook {s : Sh} (h : TraceInv s) (loc child : Nat) (plt : Bool) :
+    TraceInv (pushHook s loc child plt) := by
+  refine ⟨by simp [h.idx], ?_, by simpa using h.jbs⟩
+  simp [mkEnt, h.depths, h.idx, descFrom]
+
+theorem trace_pop {s t : Sh} (h : TraceInv s) (hne : s.rs ≠ []) (h1 : t.recIdx = s.recIdx - 1)
+    (h2 : t.rs.map Ent.depth = (s.rs.map Ent.depth).tail) (h3 : t.jbs = s.jbs) : TraceInv t := by
+  have hl : t.rs.length = s.rs.length - 1 := by
+    have := congrArg List.length h2; simpa using this
+  refine ⟨by rw [h1, hl, h.idx], ?_, by rw [h3]; exact h.jbs⟩
+  rw [h2, h.depths, descFrom_tail, hl]
+
+theorem trace_exitTop {s : Sh} (h : TraceInv s) : TraceInv (exitTop s).1 := by
+  cases hr : s.rs with
+  | nil => exact h.of_eq (by simp [exitTop, hr]) (by simp [exitTop, hr]) (by simp [exitTop, hr])
+  | cons e r =>
+    have hs := exitTop_spec (s := s) (x := e.c) (xs := r.map Ent.c) (by rw [hr]; rfl)
+    exact trace_pop h (by rw [hr]; simp) hs.2.2.2.1 hs.2.2.2.2.2.2.2.2 hs.2.2.2.2.2.1
+
+theorem trace_dead {s : Sh} (h : TraceInv s) : TraceInv { s with dead := true } := h.of_eq rfl rfl rfl
+
+theorem exitTop_vf (s : Sh) : (exitTop s).1.vf = s.vf := by
+  cases hr : s.rs with
+  | nil => simp [exitTop, hr]
+  | cons e r => simp [exitTop, hr]
+
+theorem trace_plthookExitCore {s : Sh} (h : TraceInv s) (hvf : s.vf = none) :
+    TraceInv (plthookExitCore s).1 ∧ (plthookExitCore s).1.vf = none := by
+  have hrv : restoreVfork s = s := by simp [restoreVfork, hvf]
+  unfold plthookExitCore
+  simp only [hrv, ite_self]
+  split
+  · exact ⟨h.of_eq rfl rfl rfl, hvf⟩
+  · rename_i e r hr
+    split
+    · exact ⟨h.of_eq rfl rfl rfl, hvf⟩
+    · have hvf1 : (if e.c.vfork = true then { s with child := true } else s).vf = none := by split <;> exact hvf
+      have ht1 : TraceInv (if e.c.vfork = true then { s with child := true } else s) := by
+        split
+        · exact h.of_eq rfl rfl rfl
+        · exact h
+      simp only [hvf1, Option.isSome_none, Bool.false_eq_true, ↓reduceIte]
+      split
+      · exact ⟨ht1.of_eq rfl rfl rfl, by first | rfl | exact hvf1⟩
+      · split
+        · exact ⟨ht1.of_eq rfl rfl rfl, by first | rfl | exact hvf1⟩
+        · exact ⟨trace_exitTop ht1, by rw [exitTop_vf]; exact hvf1⟩
+
+theorem trace_restoreJmpbuf {s : Sh} (h : TraceInv s) (a : Nat) : TraceInv (restoreJmpbuf s a) := by
+  simp only [restoreJmpbuf]
+  cases hl : s.jbs.lookup a with
+  | none => exact trace_dead h
+  | some v =>
+    obtain ⟨srs, sidx⟩ := v
+    obtain ⟨h1, h2⟩ := h.jbs a srs sidx hl
+    refine ⟨by simp [h1], ?_, h.jbs⟩
+    show (markWritten srs).map Ent.depth = descFrom (markWritten srs).length
+    rw [markWritten_depth, h2]; simp [markWritten]
+
+theorem trace_plthookExit {s : Sh} (h : TraceInv s) (hvf : s.vf = none) :
+    TraceInv (plthookExit s).1 ∧ (plthookExit s).1.vf = none := by
+  unfold plthookExit
+  split
+  · rename_i e r hr
+    split
+    · apply trace_plthookExitCore
+      · apply trace_restoreJmpbuf
+        refine ⟨by simp [h.idx, hr], ?_, h.jbs⟩
+        have := h.depths
+        rw [hr] at this
+        simpa using this
+      · simp only [restoreJmpbuf]; split <;> exact hvf
+    · exact trace_plthookExitCore h hvf
+  · exact trace_plthookExitCore h hvf
+
+theorem trace_retLoop : ∀ (n : Nat) (s : Sh) (v : Nat), TraceInv s → s.vf = none →
+    TraceInv (retLoop n s v).1 ∧ (retLoop n s v).1.vf = none := by
+  intro n
+  induction n with
+  | zero => intro s v h hvf; exact ⟨h, hvf⟩
+  | succ n ih =>
+    intro s v h hvf
+    simp only [retLoop]
+    split
+    · exact ih _ _ (trace_exitTop h) (by rw [mcountExit, exitTop_vf]; exact hvf)
+    · split
+      · exact ih _ _ (trace_plthookExit h hvf).1 (trace_plthookExit h hvf).2
+      · exact ⟨h, hvf⟩
+
+theorem fixChain_depth (m : Mem) : ∀ l : List Ent, (fixChain m l).map Ent.depth = l.map Ent.depth := by
+  intro l
+  induction l with
+  | nil => rfl
+  | cons e r ih =>
+    cases r with
+    | nil => simp [fixChain]
+    | cons e2 r2 =>
+      simp only [fixChain]
+      split
+      · simp only [List.map_cons, List.cons.injEq, true_and]; exact ih
+      · rfl
+
+theorem trace_popDead (tid fa : Nat) : ∀ (n : Nat) (l : List Ent) (ri : Nat) (out : List Rec),
+    ri = l.length → l.map Ent.depth = descFrom l.length →
+    (popDead tid fa n l ri out).2.1 = (popDead tid fa n l ri out).1.length ∧
+    (popDead tid fa n l ri out).1.map Ent.depth = descFrom (popDead tid fa n l ri out).1.length := by
+  intro n
+  induction n with
+  | zero => intro l ri out h1 h2; exact ⟨h1, h2⟩
+  | succ n ih =>
+    intro l ri out h1 h2
+    cases l with
+    | nil => exact ⟨h1, h2⟩
+    | cons e r =>
+      simp only [popDead]
+      split
+      · exact ⟨h1, h2⟩
+      · have hwd := writeEntries_depth tid (e :: r)
+        have hwl := writeEntries_length tid (e :: r)
+        obtain ⟨e', r', hr'⟩ : ∃ e' r', (writeEntries tid (e :: r)).1 = e' :: r' := by
+          cases hh : (writeEntries tid (e :: r)).1 with
+          | nil => rw [hh] at hwl; simp at hwl
+          | cons a b => exact ⟨a, b, rfl⟩
+        rw [hr'] at hwd hwl
+        simp only [hr', List.tail_cons]
+        have hrl : r'.length = r.length := by simpa using hwl
+        apply ih
+        · rw [h1, hrl]; simp
+        · have := (List.cons.inj (by simpa using hwd : e'.depth :: r'.map Ent.depth = e.depth :: r.map Ent.depth)).2
+          rw [this, hrl]
+          have := h2
+          simp only [List.map_cons, List.length_cons, descFrom, List.cons.injEq] at this
+          exact this.2
+
+theorem trace_rehookException (fx : Fix) {s : Sh} (h : TraceInv s) (fa : Nat) :
+    TraceInv (rehookException fx s fa) := by
+  have hp := trace_popDead s.tid fa s.rs.length s.rs s.recIdx s.out h.idx h.depths
+  have hfl : (fixChain s.mem (popDead s.tid fa s.rs.length s.rs s.recIdx s.out).1).length =
+      (popDead s.tid fa s.rs.length s.rs s.recIdx s.out).1.length := by
+    have := congrArg List.length (fixChain_depth s.mem (popDead s.tid fa s.rs.length s.rs s.recIdx s.out).1)
+    simpa using this
+  refine ⟨?_, ?_, h.jbs⟩
+  · simp only [rehookException]; rw [hfl]; exact hp.1
+  · simp only [rehookException]; rw [fixChain_depth, hfl]; exact hp.2
+
+theorem trace_excPre (fx : Fix) {s : Sh} (h : TraceInv s) (fa : Nat) : TraceInv (excPre fx s fa) :=
+  (trace_rehookException fx h fa).of_eq rfl rfl rfl
+
+theorem trace_mcountEntry (fx : Fix) {s : Sh} (h : TraceInv s) (loc child : Nat) :
+    TraceInv (mcountEntry fx s loc child) := by
+  simp only [mcountEntry]
+  apply trace_pushHook
+  split
+  · exact trace_excPre fx h _
+  · exact h
+
+theorem setTop_depth (l : List Ent) (f : Ent → Ent) (hf : ∀ e, (f e).depth = e.depth) :
+    (setTop l f).map Ent.depth = l.map Ent.depth := by
+  cases l <;> simp [setTop, hf]
+
+theorem trace_pltSpecial (fx : Fix) {s4 : Sh} (h4 : TraceInv s4) (sym : Sym) (a : Nat) :
+    TraceInv (pltSpecial fx s4 sym a) := by
+  cases sym with
+  | setjmp =>
+    refine ⟨h4.idx, h4.depths, ?_⟩
+    intro j srs sidx hj
+    simp only [pltSpecial, setupJmpbuf] at hj
+    by_cases hja : j = a
+    · subst hja
+      rw [jbSet_lookup_same] at hj
+      cases hj
+      exact ⟨h4.idx, h4.depths⟩
+    · rw [jbSet_lookup_other _ _ hja] at hj
+      exact h4.jbs j srs sidx hj
+  | longjmp => exact h4.of_eq rfl (setTop_depth _ _ (fun _ => rfl)) rfl
+  | vfork =>
+    have h5 : TraceInv { s4 with rs := setTop s4.rs fun e => { e with c := { e.c with vfork := true } } } :=
+      h4.of_eq rfl (setTop_depth _ _ (fun _ => rfl)) rfl
+    simp only [pltSpecial, prepareVfork]
+    split
+    · exact h5
+    · exact h5.of_eq rfl rfl rfl
+  | except => exact h4.of_eq rfl rfl rfl
+  | plain => exact h4
+  | flush => exact h4
+  | skip => exact h4
+
+theorem trace_plthookEntry (fx : Fix) {s : Sh} (h : TraceInv s) (loc child : Nat) (sym : Sym) (a : Nat) :
+    TraceInv (plthookEntry fx s loc child sym a) := by
+  simp only [plthookEntry]
+  split
+  · exact h
+  · apply trace_pltSpecial
+    have h3 : TraceInv (pushHook (if (fx.excPlt && s.inExc && sym != Sym.except) = true then excPre fx s loc else s)
+        loc child true) := by
+      apply trace_pushHook
+      split
+      · exact trace_excPre fx h _
+      · exact h
+    split
+    · exact trace_record h3 false
+    · exact h3
+
+end Uft.NonLocal
+
+namespace Uft.NonLocal
+
+/-! ### TraceInv along machine steps -/
+
+def Op.terminal : Op → Bool
+  | .pthreadExit .. | .exit .. | .vforkExec .. => true
+  | _ => false
+
+theorem step_halted (fx : Fix) {m : M} (h : m.halted = true) (op : Op) : step fx m op = m := by
+  cases op <;> simp [step, h]
+
+theorem trace_step {m : M} (hi : Inv m) (ht : TraceInv m.sh) {op : Op} (hw : WellFormedOp m op)
+    (hnt : op.terminal = false) : TraceInv (step Fix.all m op).sh := by
+  cases op with
+  | call k child slot orig fpw =>
+    simp only [step, hi.nh, Bool.false_eq_true, ↓reduceIte]
+    have h0 : TraceInv { m.sh with mem := upd (upd m.sh.mem slot orig) (slot - 1) fpw } := ht.of_eq rfl rfl rfl
+    cases k with
+    | none => exact h0
+    | mcount => exact trace_mcountEntry _ h0 _ _
+    | plt => exact trace_plthookEntry _ h0 _ _ _ _
+  | ret =>
+    simp only [step, hi.nh, Bool.false_eq_true, ↓reduceIte]
+    split
+    · exact ht
+    · exact (trace_retLoop _ _ _ ht hi.vf).1
+  | tailcall k child =>
+    simp only [step, hi.nh, Bool.false_eq_true, ↓reduceIte]
+    split
+    · exact ht
+    · cases k with
+      | none => exact ht
+      | mcount => exact trace_mcountEntry _ ht _ _
+      | plt => exact trace_plthookEntry Fix.all ht _ child .plain 0
+  | setjmp j child slot orig =>
+    simp only [step, hi.nh, Bool.false_eq_true, ↓reduceIte]
+    have h0 : TraceInv { m.sh with mem := upd m.sh.mem slot orig } := ht.of_eq rfl rfl rfl
+    have h1 := trace_plthookEntry Fix.all h0 slot child .setjmp j
+    have hvf : (plthookEntry Fix.all { m.sh with mem := upd m.sh.mem slot orig } slot child .setjmp j).vf = none := by
+      rw [show ({ m.sh with mem := upd m.sh.mem slot orig } : Sh) = progStore m.sh slot orig from rfl,
+        plthookEntry_setjmp (s := progStore m.sh slot orig) hw.2.2]
+      simpa [setupJmpbuf] using hi.vf
+    exact (trace_retLoop _ _ _ h1 hvf).1
+  | longjmp j child slot orig =>
+    simp only [step, hi.nh, Bool.false_eq_true, ↓reduceIte]
+    have h0 : TraceInv { m.sh with mem := upd m.sh.mem slot orig } := ht.of_eq rfl rfl rfl
+    have h1 := trace_plthookEntry Fix.all h0 slot child .longjmp j
+    have hvf : (plthookEntry Fix.all { m.sh with mem := upd m.sh.mem slot orig } slot child .longjmp j).vf = none := by
+      rw [show ({ m.sh with mem := upd m.sh.mem slot orig } : Sh) = progStore m.sh slot orig from rfl,
+        plthookEntry_longjmp (s := progStore m.sh slot orig) hw.2.2.1]
+      simpa using hi.vf
+    split
+    · exact h1
+    · exact (trace_retLoop _ _ _ h1 hvf).1
+  | throw => simp only [step, hi.nh, Bool.false_eq_true, ↓reduceIte]; exact ht.of_eq rfl rfl rfl
+  | unwind => simp only [step, hi.nh, Bool.false_eq_true, ↓reduceIte]; exact ht
+  | resume => simp only [step, hi.nh, Bool.false_eq_true, ↓reduceIte]; exact ht.of_eq rfl rfl rfl
+  | catch_ fa =>
+    simp only [step, hi.nh, Bool.false_eq_true, ↓reduceIte, beginCatch]
+    split
+    · exact trace_excPre _ ht _
+    · exact ht
+  | pthreadExit child slot orig => simp [Op.terminal] at hnt
+  | exit child slot orig => simp [Op.terminal] at hnt
+  | vforkExec a b c d e => simp [Op.terminal] at hnt
+  | mtdDtor =>
+    -- nothing is hooked any more: the shadow stack is already empty
+    have hi' := inv_mtdDtor hi hw
+    obtain ⟨hx, hch⟩ := hw
+    obtain ⟨dead, hc, hd0⟩ := hi.ctl
+    have hd : dead = [] := hd0 hx
+    subst hd
+    have hrs : m.sh.rs = [] := by
+      obtain ⟨dead', hc', _⟩ := hi'.ctl
+      have hexp : expFrames m.fs = [] := by
+        have : (step Fix.all m .mtdDtor).fs = m.fs := by simp [step, hi.nh]
+        have h2 : (step Fix.all m .mtdDtor).sh.rs = [] := by simp [step, hi.nh, mtdDtor]
+        rw [h2, this] at hc'
+        simp at hc'
+        exact hc'.2
+      simpa [hexp] using hc
+    simp only [step, hi.nh, Bool.false_eq_true, ↓reduceIte, mtdDtor]
+    exact ht.of_eq rfl (by simp [hrs]) rfl
+
+end Uft.NonLocal
+
+namespace Uft.NonLocal
+
+/-! ### replay: display depth on coherent streams -/
+
+structure RInv (r : RSt) (c : CSt) : Prop where
+  set : r.set = c.started
+  dd : c.started = true → r.dd = c.cur
+  tab : ∀ d, c.seen d = true → r.tab d = d + 1
+  pend : r.pend = c.afterLj
+
+theorem rstep_coherent {r : RSt} {c : CSt} {x : RRec} (h : RInv r c) (hc : cok c x = true) :
+    RInv (rstep true r x).1 (cnext c x) ∧ (rstep true r x).2 = x.depth := by
+  obtain ⟨hset, hdd, htab, hpend⟩ := h
+  by_cases ht : x.typ = 0
+  · simp only [cok, ht, ↓reduceIte, Bool.and_eq_true, Bool.not_eq_true', beq_iff_eq] at hc
+    obtain ⟨hlj, hdep⟩ := hc
+    -- the display depth before this record is the record depth
+    have hdd0 : (if r.set = true then r else { r with dd := x.depth, set := true }).dd = x.depth := by
+      rw [hset]
+      by_cases hs : c.started = true
+      · simp only [hs, ↓reduceIte] at hdep ⊢
+        rw [hdd hs, ← hdep]
+      · simp [hs]
+    have htab0 : (if r.set = true then r else { r with dd := x.depth, set := true }).tab = r.tab := by
+      split <;> rfl
+    cases hk : x.kind with
+    | plain =>
+      simp only [rstep, cnext, ht, ↓reduceIte, hk]
+      refine ⟨⟨by split <;> simp_all, ?_, ?_, ?_⟩, hdd0⟩
+      · intro _; simp only []; rw [hdd0]
+      · intro d hd; simp at hd; simp only []; rw [htab0]; exact htab d hd
+      · simp; split <;> simp_all
+    | setjmp =>
+      simp only [rstep, cnext, ht, ↓reduceIte, hk]
+      refine ⟨⟨by split <;> simp_all, ?_, ?_, ?_⟩, hdd0⟩
+      · intro _; simp only []; rw [hdd0]
+      · intro d hd
+        simp only [↓reduceIte] at hd
+        by_cases hdx : d = x.depth
+        · subst hdx; simp only [↓reduceIte]; rw [hdd0]
+        · simp only [hdx, ↓reduceIte] at hd ⊢
+          rw [htab0]; exact htab d hd
+      · simp; split <;> simp_all
+    | longjmp =>
+      simp only [rstep, cnext, ht, ↓reduceIte, hk]
+      refine ⟨⟨by split <;> simp_all, ?_, ?_, ?_⟩, hdd0⟩
+      · intro _; simp only []; rw [hdd0]
+      · intro d hd; simp at hd; simp only []; rw [htab0]; exact htab d hd
+      · simp
+  · have hcur : (if r.set = true then r else { r with dd := x.depth + 1, set := true }).dd =
+        (if c.started = true then c.cur else x.depth + 1) := by
+      rw [hset]
+      by_cases hs : c.started = true
+      · simp only [hs, ↓reduceIte]; exact hdd hs
+      · simp [hs]
+    have hp0 : (if r.set = true then r else { r with dd := x.depth + 1, set := true }).pend = c.afterLj := by
+      split <;> simpa using hpend
+    have htab0 : (if r.set = true then r else { r with dd := x.depth + 1, set := true }).tab = r.tab := by
+      split <;> rfl
+    have hset0 : (if r.set = true then r else { r with dd := x.depth + 1, set := true }).set = true := by
+      split <;> simp_all
+    by_cases hlj : c.afterLj = true
+    · simp only [cok, ht, ↓reduceIte, hlj, Bool.and_eq_true, decide_eq_true_eq] at hc
+      have : r.tab x.depth = x.depth + 1 := htab _ hc.2
+      simp only [rstep, cnext, ht, ↓reduceIte, Bool.true_and, hp0, hlj, htab0]
+      refine ⟨⟨by simpa using hset0, ?_, ?_, by simp⟩, by simp [this]⟩
+      · intro _; simp [this]
+      · intro d hd; exact htab d hd
+    · have hlj' : c.afterLj = false := by simpa using hlj
+      simp only [cok, ht, ↓reduceIte, hlj', Bool.false_eq_true, beq_iff_eq] at hc
+      simp only [rstep, cnext, ht, ↓reduceIte, Bool.true_and, hp0, hlj', Bool.false_eq_true, hcur]
+      refine ⟨⟨by simpa using hset0, ?_, ?_, by simp [hp0, hlj']⟩, by omega⟩
+      · intro _; show _ - 1 = x.depth; omega
+      · intro d hd; simp only []; rw [htab0]; exact htab d hd
+
+theorem rrun_coherent : ∀ (l : List RRec) (r : RSt) (c : CSt), RInv r c → coherent c l = true →
+    rrun true r l = l.map (·.depth) := by
+  intro l
+  induction l with
+  | nil => intro r c _ _; rfl
+  | cons x xs ih =>
+    intro r c h hc
+    simp only [coherent, cstep] at hc
+    by_cases hk : cok c x = true
+    · simp only [hk, ↓reduceIte] at hc
+      obtain ⟨h', hd⟩ := rstep_coherent h hk
+      simp only [rrun, List.map_cons, hd]
+      rw [ih _ _ h' hc]
+    · simp [hk] at hc
 
 end Uft.NonLocal
